@@ -11,19 +11,19 @@ CLAIMED = {
     },
 
     "C03": {
-        "text": 'Narrow claim, decided on every run: a capacity filter follows the last reservation increase on every path to the returned table (disjunctive must-pass-through with infeasible-branch pruning on CHECK_CORRECTNESS), row filters at least as strict as col <= 1 + tolerance, usage objectives bounded by a constant <= 1 with masks following the inclusive flag, coherent loop-bound operator table, fused-loop limit comparator. One-sided rules: stricter code is accepted. Loop-bound operator table decided by constant evaluation of the block for every operator the Comparison model accepts; per-memory bits-per-value overrides are looked up by the tensor of the default and the resolved width (not the default) is what the estimate uses.',
+        "text": 'Narrow claim, decided on every run: a capacity filter follows the last reservation increase on every path to the returned table (disjunctive must-pass-through with infeasible-branch pruning on CHECK_CORRECTNESS), row filters at least as strict as col <= 1 + tolerance, usage objectives bounded by a constant <= 1 with masks following the inclusive flag, coherent loop-bound operator table, fused-loop limit comparator. One-sided rules: stricter code is accepted. Loop-bound operator table decided by constant evaluation of the block for every operator the Comparison model accepts; per-memory bits-per-value overrides are looked up by the tensor of the default and the resolved width (not the default) is what the estimate uses. Per-Einsum lookups in the tracking estimate are recomputed every iteration; colliding reservation columns are resolved by comparing the stored level with a level of the same kind.',
         "design_ref": "DESIGN.md section 3, C03", "note": _NOTE,
         "technique": 'static analysis: CFG dominance / must-pass-through with constant folding, comparator and table rules on normal forms (ast)',
     },
 
     "C07": {
-        "text": "Narrow claim, decided on every run: memoisation soundness on the symbolic->numeric path: 25 lru_cache'd functions read no re-bound global, instance-cached queries are only used after the tables they read are final, explicit caches key on every input, identity-keyed caches keep their keys alive on every path, and compile / column fill / call / final reorder all use one `symbols` list. The symengine->sympy conversion is class-faithful (arm for se.K builds sympy.K from the node own converted arguments; Integer from int(v), Rational from numerator and denominator); the tracking pre-check resolves bits-per-value like the model.",
+        "text": "Narrow claim, decided on every run: memoisation soundness on the symbolic->numeric path: 25 lru_cache'd functions read no re-bound global, instance-cached queries are only used after the tables they read are final, explicit caches key on every input, identity-keyed caches keep their keys alive on every path, and compile / column fill / call / final reorder all use one `symbols` list. The symengine->sympy conversion is class-faithful (arm for se.K builds sympy.K from the node own converted arguments; Integer from int(v), Rational from numerator and denominator); the tracking pre-check resolves bits-per-value like the model. The lambdify cache key keeps the order of the symbol list.",
         "design_ref": "DESIGN.md section 3, C07", "note": _NOTE,
         "technique": 'static analysis: free-variable / who-may-write analysis for cache keys, pairing rule (CFG), def-use of the positional symbol list (ast)',
     },
 
     "C09": {
-        "text": "Decided on every run: conservative fallbacks (constant returns / handlers answer 'may cross'), polarity coherence by specialising _compare_to_zero on its single boolean (AST constant folding) against the exact tuples with one-sided tolerance for more conservative entries, exhaustive evaluation of the 4-case combination table and of all 16 pairs of the lattice join, and agreement of the three verdict->goal tables. The verdict of sympy on a concrete formula is not decided. Corner shortcuts give a definite verdict only from a strictly signed corner value; the copied Min/Max connected-term fast path is unrolled and at every comparison point the class answered must match the orientation of the operands (found a genuine defect, F-C09-1).",
+        "text": "Decided on every run: conservative fallbacks (constant returns / handlers answer 'may cross'), polarity coherence by specialising _compare_to_zero on its single boolean (AST constant folding) against the exact tuples with one-sided tolerance for more conservative entries, exhaustive evaluation of the 4-case combination table and of all 16 pairs of the lattice join, and agreement of the three verdict->goal tables. The verdict of sympy on a concrete formula is not decided. Corner shortcuts give a definite verdict only from a strictly signed corner value; the copied Min/Max connected-term fast path is unrolled and at every comparison point the class answered must match the orientation of the operands (found a genuine defect, F-C09-1). Recursive calls of the sign test keep every flag in its own position; the connected-term cache stores answers only under the operand order they were computed for.",
         "design_ref": "DESIGN.md section 3, C09", "note": _NOTE,
         "technique": 'static analysis: AST specialisation (partial evaluation over one boolean), exhaustive abstract evaluation of small decision tables, handler census (ast)',
     },
@@ -35,7 +35,7 @@ CLAIMED = {
     },
 
     "C13": {
-        "text": 'Narrow claim, decided on every run: eq/hash/order coherence and immutability of the join keys, incompatible pairs are skipped and compatible ones merged (the only skips before the merge are the duplicate guard and the ValueError of the compatibility merge, which raises on the loop-count check), merge keys appended pairwise and used as an inner join, mismatch empties the result. The numeric content of joining is not decided. The only filter between join rounds is one-sided (whole-row reference points, absent columns non-dominated); the reservation merge visits every level from the deepest to the shallowest of either table inclusive.',
+        "text": 'Narrow claim, decided on every run: eq/hash/order coherence and immutability of the join keys, incompatible pairs are skipped and compatible ones merged (the only skips before the merge are the duplicate guard and the ValueError of the compatibility merge, which raises on the loop-count check), merge keys appended pairwise and used as an inner join, mismatch empties the result. The numeric content of joining is not decided. The only filter between join rounds is one-sided (whole-row reference points, absent columns non-dominated); the reservation merge visits every level from the deepest to the shallowest of either table inclusive. Rows are matched under the permuted compatibilities the joined key was built from; splitting a table for parallel work partitions its rows.',
         "design_ref": "DESIGN.md section 3, C13", "note": _NOTE,
         "technique": 'static analysis: dunder coherence over field sets, who-may-write on frozen keys, skip census in the merge loop (ast/CFG)',
     },
